@@ -19,8 +19,8 @@ RULE = ("explicit-state BFS to fixpoint over (Heap.cost,color,p,pos,last) x refe
         "drained on a copy (each queued element exactly once, in key order)")
 ASSUMPTIONS = [
     "capacities and key alphabets as listed in coverage.bounds; larger heaps are not explored",
-    "element identifiers are 0..size-1 and each is inserted at most once (the way all four "
-    "models use the heap)",
+    "element identifiers are 0..size-1; each is inserted at most once (the way all four models use "
+    "the heap) except in the re-insertion configurations (capacities 1..3(4), two key values)",
     "updates of queued elements only improve the key in the policy's direction "
     "(the property's precondition)",
     "updates of already removed (BLACK) elements are outside the property and not issued",
@@ -36,6 +36,8 @@ def key_table(seed, m):
         return (0.0, 1.0, sys.float_info.max)
     if m == "inf":
         return (0.0, 1.0, float("inf"))
+    if m == "re2":       # two key values; removed elements may be inserted again
+        return (0.0, 1.0)
     if seed == 0:
         return tuple(float(i) for i in range(m))
     import random
@@ -107,6 +109,10 @@ def plan(tier, seed):
         for policy in ("min", "max"):
             shards.append((policy, cap, "fmax"))
             shards.append((policy, cap, "inf"))
+    # removed elements may be queued again (state graph with cycles; still finite)
+    for cap in (1, 2, 3) + ((4,) if tier == "thorough" else ()):
+        for policy in ("min", "max"):
+            shards.append((policy, cap, "re2"))
     # one long deterministic history on a heap of 300 elements (identifiers beyond 256)
     for policy in ("min", "max"):
         shards.append(("bigheap", policy, 300))
@@ -147,12 +153,19 @@ def better(policy, a, b):
     return a < b if policy == "min" else a > b
 
 
+REINSERT = [False]
+
+
 def enabled_ops(policy, size, ref, keys):
     """ref = (status tuple, key tuple)"""
     status, key = ref
     ops = []
     n_queued = sum(1 for s in status if s == GRAY)
     for e in range(size):
+        if status[e] == BLACK and REINSERT[0] and n_queued < size:
+            # an element that was already returned is queued again (a new insertion of the same id)
+            for v in keys:
+                ops.append(("insert", e, v))
         if status[e] == WHITE:
             for v in keys:
                 ops.append(("insert", e, v))
@@ -467,6 +480,7 @@ def run(shard, seed):
         return run_big(shard, seed)
     policy, size, m = shard
     keys = key_table(seed, m)
+    REINSERT[0] = (m == "re2")
     res = Result()
     st0 = ((c.FLOAT_MAX,) * size, (WHITE,) * size, (-1,) * size, (-1,) * size, -1)
     ref0 = ((WHITE,) * size, (None,) * size)
